@@ -50,6 +50,48 @@ macro_rules! aggregate_case {
     }};
 }
 
+macro_rules! binary_case {
+    ($opstruct:ident, $kern:ty, $lt:ty, $rt:ty, $ot:ty, $t:expr, VV) => {{
+        let mut sp = Scratchpad::new(4, HashMap::new());
+        sp.set(br::<$lt>(0), vec_of::<$lt>($t[0]));
+        sp.set(br::<$rt>(1), vec_of::<$rt>($t[1]));
+        let mut op = $opstruct { lhs: br::<$lt>(0), rhs: br::<$rt>(1), output: br::<$ot>(2), op: PhantomData::<$kern> };
+        binary_case!(@run sp, op, $ot)
+    }};
+    ($opstruct:ident, $kern:ty, $lt:ty, $rt:ty, $ot:ty, $t:expr, VS) => {{
+        let mut sp = Scratchpad::new(4, HashMap::new());
+        sp.set(br::<$lt>(0), vec_of::<$lt>($t[0]));
+        sp.set_const(br::<Scalar<$rt>>(1), vec_of::<$rt>($t[1])[0]);
+        let mut op = $opstruct { lhs: br::<$lt>(0), rhs: br::<Scalar<$rt>>(1), output: br::<$ot>(2), op: PhantomData::<$kern> };
+        binary_case!(@run sp, op, $ot)
+    }};
+    ($opstruct:ident, $kern:ty, $lt:ty, $rt:ty, $ot:ty, $t:expr, SV) => {{
+        let mut sp = Scratchpad::new(4, HashMap::new());
+        sp.set_const(br::<Scalar<$lt>>(0), vec_of::<$lt>($t[0])[0]);
+        sp.set(br::<$rt>(1), vec_of::<$rt>($t[1]));
+        let mut op = $opstruct { lhs: br::<Scalar<$lt>>(0), rhs: br::<$rt>(1), output: br::<$ot>(2), op: PhantomData::<$kern> };
+        binary_case!(@run sp, op, $ot)
+    }};
+    (@run $sp:ident, $op:ident, $ot:ty) => {{
+        $op.init(0, 16, &mut $sp);
+        let res = $op.execute(false, &mut $sp);
+        let out = $sp.get(br::<$ot>(2)).to_vec();
+        Some(format!("{} {}", if res.is_err() { "err" } else { "ok" }, fmt_vec(&out)))
+    }};
+}
+
+macro_rules! cast_case {
+    ($t:ty, $u:ty, $toks:expr) => {{
+        let mut sp = Scratchpad::new(3, HashMap::new());
+        sp.set(br::<$t>(0), vec_of::<$t>($toks[0]));
+        let mut op = type_conversion::TypeConversionOperator::<$t, $u> { input: br(0), output: br(1) };
+        op.init(0, 16, &mut sp);
+        let res = op.execute(false, &mut sp);
+        let out = sp.get(br::<$u>(1)).to_vec();
+        Some(format!("{} {}", if res.is_err() { "err" } else { "ok" }, fmt_vec(&out)))
+    }};
+}
+
 pub fn dispatch(k: &str, t: &[&str]) -> Option<String> {
     match k {
         "op_aggregate_max" => aggregate_case!(Aggregate, aggregate::MaxI64, i64, t, false, i64, i64),
@@ -103,6 +145,59 @@ pub fn dispatch(k: &str, t: &[&str]) -> Option<String> {
             let res = op.execute(false, &mut sp);
             let r = sp.get_scalar(&br::<Scalar<i64>>(3));
             Some(format!("{} {}", if res.is_err() { "err" } else { "ok" }, r))
+        }
+        "op_binary_VV_lt_i64_i64" => binary_case!(BinaryOperator, comparison_operators::LessThan, i64, i64, u8, t, VV),
+        "op_binary_VS_lt_u8_i64" => binary_case!(BinaryVSOperator, comparison_operators::LessThan, u8, i64, u8, t, VS),
+        "op_binary_SV_le_i64_u16" => binary_case!(BinarySVOperator, comparison_operators::LessThanEquals, i64, u16, u8, t, SV),
+        "op_binary_VS_eq_u32_i64" => binary_case!(BinaryVSOperator, comparison_operators::Equals, u32, i64, u8, t, VS),
+        "op_binary_VV_ne_u8_u8" => binary_case!(BinaryOperator, comparison_operators::NotEquals, u8, u8, u8, t, VV),
+        "op_binary_VV_le_u16_u32" => binary_case!(BinaryOperator, comparison_operators::LessThanEquals, u16, u32, u8, t, VV),
+        "op_binary_VS_ne_i64_i64" => binary_case!(BinaryVSOperator, comparison_operators::NotEquals, i64, i64, u8, t, VS),
+        "op_binary_SV_lt_i64_u32" => binary_case!(BinarySVOperator, comparison_operators::LessThan, i64, u32, u8, t, SV),
+        "op_binary_VS_le_u16_i64" => binary_case!(BinaryVSOperator, comparison_operators::LessThanEquals, u16, i64, u8, t, VS),
+        "op_binary_VV_eq_i64_i64" => binary_case!(BinaryOperator, comparison_operators::Equals, i64, i64, u8, t, VV),
+        "op_binary_VV_or_u8_u8" => binary_case!(BinaryOperator, comparison_operators::BoolOr, u8, u8, u8, t, VV),
+        "op_binary_VV_and_u8_u8" => binary_case!(BinaryOperator, comparison_operators::BoolAnd, u8, u8, u8, t, VV),
+        "op_checked_VV_add" => binary_case!(CheckedBinaryOperator, Addition<i64, i64>, i64, i64, i64, t, VV),
+        "op_checked_VV_sub" => binary_case!(CheckedBinaryOperator, Subtraction<i64, i64>, i64, i64, i64, t, VV),
+        "op_checked_VV_mul" => binary_case!(CheckedBinaryOperator, Multiplication<i64, i64, i64>, i64, i64, i64, t, VV),
+        "op_checked_VS_add" => binary_case!(CheckedBinaryVSOperator, Addition<i64, i64>, i64, i64, i64, t, VS),
+        "op_checked_VS_sub" => binary_case!(CheckedBinaryVSOperator, Subtraction<i64, i64>, i64, i64, i64, t, VS),
+        "op_checked_VS_mul" => binary_case!(CheckedBinaryVSOperator, Multiplication<i64, i64, i64>, i64, i64, i64, t, VS),
+        "op_checked_SV_sub" => binary_case!(CheckedBinarySVOperator, Subtraction<i64, i64>, i64, i64, i64, t, SV),
+        "op_checked_SV_mul" => binary_case!(CheckedBinarySVOperator, Multiplication<i64, i64, i64>, i64, i64, i64, t, SV),
+        "op_cast_u8_i64" => cast_case!(u8, i64, t),
+        "op_cast_u16_i64" => cast_case!(u16, i64, t),
+        "op_cast_u32_i64" => cast_case!(u32, i64, t),
+        "op_cast_u8_u32" => cast_case!(u8, u32, t),
+        "op_cast_u16_u32" => cast_case!(u16, u32, t),
+        "op_cast_u8_u16" => cast_case!(u8, u16, t),
+        "op_is_null" | "op_is_not_null" => {
+            let n: usize = num(t[0]);
+            let mut sp = Scratchpad::new(4, HashMap::new());
+            sp.set_nullable(br::<Nullable<i64>>(0), (0..n as i64).collect(), vec_of::<u8>(t[1]));
+            let res = if k == "op_is_null" {
+                let mut op = is_null::IsNull { input: br::<Nullable<Any>>(0), is_null: br(1) };
+                op.init(0, 32, &mut sp);
+                op.execute(false, &mut sp)
+            } else {
+                let mut op = is_null::IsNotNull { input: br::<Nullable<Any>>(0), is_not_null: br(1) };
+                op.init(0, 32, &mut sp);
+                op.execute(false, &mut sp)
+            };
+            let out = sp.get(br::<u8>(1)).to_vec();
+            Some(format!("{} {}", if res.is_err() { "err" } else { "ok" }, fmt_vec(&out)))
+        }
+        "op_combine_null_maps" => {
+            let n: usize = num(t[0]);
+            let mut sp = Scratchpad::new(4, HashMap::new());
+            sp.set_nullable(br::<Nullable<i64>>(0), (0..n as i64).collect(), vec_of::<u8>(t[1]));
+            sp.set_nullable(br::<Nullable<i64>>(1), (0..n as i64).collect(), vec_of::<u8>(t[2]));
+            let mut op = combine_null_maps::CombineNullMaps { lhs: br::<Nullable<Any>>(0), rhs: br::<Nullable<Any>>(1), output: br(2) };
+            op.init(n, 32, &mut sp);
+            let res = op.execute(false, &mut sp);
+            let out = sp.get(br::<u8>(2)).to_vec();
+            Some(format!("{} {}", if res.is_err() { "err" } else { "ok" }, fmt_vec(&out)))
         }
         _ => None,
     }
